@@ -1,4 +1,5 @@
 import HC.Proofs.Verify
+import HC.Proofs.Sound
 /-!
 # C04 — forged or altered proofs never change what a replica believes
 
@@ -11,11 +12,23 @@ Proved (for every crypto record, every core, every disk, **every** proof):
 * `refuse_noop`      : whenever the answer is `false`, the journal is empty and the core unchanged;
 * `refuse_before_commit` : an error while locating the block's byte offset also changes nothing.
 
-Partial (`sound_partial` is `refuse_noop`; the full `Sound` statement is below): that an *accepted*
-proof only installs nodes/blocks/lengths the writer signed, up to an explicit hash collision or
-signature forgery, is not proved yet.  It is checked on the implementation by the alteration run:
-after every accepted proof every held block must equal the writer's and (length, byte length) must be
-a prefix sum of the writer's log; refused proofs must leave all observations unchanged.
+Soundness of acceptance, for every crypto record, as reductions to explicit collisions / forgeries:
+
+* `sound_block`   : a proof carrying only a block section that passes `verify_proof` on a replica whose
+  stored nodes are authentic delivers the writer's block, and every sibling node it carries is the
+  reference node (index, size, hash) — or the run exhibits a collision of `leaf` or `parent`;
+* `sound_upgrade` : whenever `verify_upgrade` accepts, under "the key verifies only what the writer
+  signed" and "the writer signs only (reference roots of a prefix of its log, that length, its fork)",
+  the adopted length is a signed length, the fork is the writer's and the adopted roots are exactly the
+  reference roots of that length — or the run exhibits a collision of the root-list hash;
+* `path_sound`    : the underlying statement about the hash climb for any start node (also covers
+  hash-only sections: everything but the start node's own size is authenticated).
+
+Partial (`sound_partial`): the combination "block under a root that the same proof's upgrade
+introduces", the seek section, and the byte-length bookkeeping are not yet covered by theorems; the
+alteration run checks them on the implementation (after every accepted proof every held block must
+equal the writer's and (length, byte length) must be a prefix sum of the writer's log; refused proofs
+must leave all observations unchanged).
 -/
 namespace HC.C04
 open HC HC.Core HC.Tree
@@ -43,5 +56,36 @@ theorem refuse_before_commit (C : Crypto) (c : Core) (d : Disk) (p : Proof) (cs 
     (c.verifyAndApply C d p).result = .error e ∧ (c.verifyAndApply C d p).journal = []
       ∧ (c.verifyAndApply C d p).core = c :=
   apply_dataStep_error C c d p cs e hf hv hc hd
+
+theorem sound_block (C : Crypto) (bs : Array Bytes) (t : Tree) (f : File) (pk : Bytes) (p : Proof) (b : Codec.DataBlock)
+    (cs : Changeset) (hb : p.block = some b) (hs : p.seek = none) (hu : p.upgrade = none)
+    (hauth : Sound.StoreAuthentic C bs t f) (hv : t.verifyProof C f p pk = .ok cs) :
+    Sound.Collision C ∨ (b.value = bs.getD b.index [] ∧ ∀ n ∈ b.nodes, ∃ dn on, n = RefTree.nodeAt C bs dn on) :=
+  Sound.block_proof_sound C bs t f pk p b cs hb hs hu hauth hv
+
+theorem sound_upgrade (C : Crypto) (bs : Array Bytes) (wfork : Nat) (Signed : Bytes → Prop)
+    (fork : Nat) (u : Codec.DataUpgrade) (blockRoot : Option Codec.Node) (pk : Bytes) (cs cs' : Changeset) (consumed : Bool)
+    (hunf : ∀ m sig, C.verify pk m sig = true → Signed m)
+    (hsig : ∀ m, Signed m → ∃ n, n ≤ bs.size ∧ m = RefTree.signableOf C (bs.extract 0 n) wfork)
+    (hlen : ∀ x, (C.tree x).length = 32) (hsize : bs.size < 2 ^ 64) (hwf : wfork < 2 ^ 64)
+    (hb1 : cs'.length < 2 ^ 64) (hb2 : fork < 2 ^ 64)
+    (h : verifyUpgrade C fork u blockRoot pk cs = .ok (consumed, cs')) :
+    Sound.TreeCollision C ∨ (cs'.length ≤ bs.size ∧ fork = wfork
+      ∧ cs'.roots.map (fun n => (n.hash, n.index, n.length)) =
+          (RefTree.roots C (bs.extract 0 cs'.length)).map (fun n => (n.hash, n.index, n.length))) :=
+  Sound.upgrade_sound C bs wfork Signed fork u blockRoot pk cs cs' consumed hunf hsig hlen hsize hwf hb1 hb2 h
+
+theorem path_sound (C : Crypto) (bs : Array Bytes) (nodes : List Codec.Node) (fuel d o : Nat) (cur : Codec.Node)
+    (rn : List Codec.Node) (root : Codec.Node) (rn' : List Codec.Node)
+    (h : climb C fuel (Sound.plainQueue nodes) (RefProof.iat d o) cur rn = .ok (root, rn'))
+    (hc : cur.index = Flat.index d o) :
+    root.index = Flat.index (d + nodes.length) (o / 2 ^ nodes.length) ∧
+      (root.hash = (RefTree.node C bs (d + nodes.length) (o / 2 ^ nodes.length)).2 →
+        Sound.Collision C ∨
+          (cur.hash = (RefTree.node C bs d o).2 ∧
+            (cur.length = (RefTree.node C bs d o).1 →
+              root.length = (RefTree.node C bs (d + nodes.length) (o / 2 ^ nodes.length)).1 ∧
+              ∀ n ∈ nodes, ∃ dn on, n = RefTree.nodeAt C bs dn on))) :=
+  Sound.climb_sound C bs nodes fuel d o cur rn root rn' h hc
 
 end HC.C04
